@@ -14,6 +14,10 @@ mod c08;
 mod c26;
 mod c12;
 mod c21;
+mod store;
+mod store_ops;
+mod store_run;
+mod dbg;
 
 use util::Ctx;
 
@@ -51,6 +55,10 @@ fn main() {
         "c26" => c26::run(&mut ctx),
         "c12" => c12::run(&mut ctx),
         "c21" => c21::run(&mut ctx),
+        "store" => store_run::run_store(&mut ctx),
+        "dbg" => dbg::run(&mut ctx),
+        "crash" => store_run::run_crash(&mut ctx),
+        "space" => store_run::run_space(&mut ctx),
         "c17" => seg::run_c17(&mut ctx),
         "c18" => seg::run_c18(&mut ctx),
         other => { eprintln!("unknown family {other}"); std::process::exit(2); }
